@@ -156,6 +156,9 @@ def run(ctx, replay=None):
     seeds = [1, 2] if not thorough else list(range(1, 7))
     cfgs = [("rsp", {"block": 2, "solver": "qr", "max_iter": 300}), ("rsp", {"block": 16, "solver": "spd", "max_iter": 300}),
             ("rsp_col", {"block": 1, "solver": "qr", "max_iter": 400}),
+            # monitor sketch as wide as the update sketch (block_size == test_sketch_size < n)
+            ("rsp", {"block": 2, "solver": "qr", "max_iter": 300, "test": 2}), ("rsp_col", {"block": 3, "solver": "spd", "max_iter": 300, "test": 3}),
+            ("rsp", {"block": 1, "solver": "spd", "max_iter": 400, "test": 1}),
             ("hybrid", {"block": 2, "p": 4, "T": 3, "solver": "qr", "max_iter": 120}),
             ("cgne", {"max_iter": 500})]
     if thorough:
